@@ -17,6 +17,8 @@ func init() {
 }
 
 func runC17(r *engine.Run) {
+	r.Rule("AGREE-clonefields", "see C14: the copy helper behind every CloneNode() copies origin to origin and version to version (a slip makes the copy of a node whose version stamp differs from its origin hash to another key: MergeDB files the donor's nodes under keys nobody refers to and the repair leaves the holes)")
+	r.Rule("ORDER-KEY-save", "see C04: every pending change is recorded for the batch (no filter by origin): merged-in donor nodes keep their origin and are written by the same save")
 	r.Rule("LOCK-mpt", "see C16: the list of missing node keys is appended to and read only under its own mutex (lookups record absent nodes while holding just the read lock of the trie, so several record at once): an unguarded append loses entries, and the report is no longer exactly the absent nodes")
 	r.Rule("DOM-cancel", "see C05: AddChange removes the new node's hash from the delete set on every path, also where there is no old node - the path a repair (MergeDB) takes: a synced-back node that the same trie removed earlier would otherwise be written and then deleted again by the save of the repair")
 	r.Rule("DOM-takeover", "in MergeDB the iteration over the donor store (through which the donor's nodes enter this trie's pending changes) dominates every return: no shortcut - being at the donor's root already, say - skips the take-over, after which a save would write nothing and report success")
@@ -61,6 +63,8 @@ func runC17(r *engine.Run) {
 	domTakeover(r, "DOM-takeover")
 	mptLockDiscipline(r)
 	domCancel(r)
+	agreeCloneFields(r, "AGREE-clonefields")
+	orderKeySave(r)
 }
 
 // resultValue resolves the i-th result of ret through a named-result cell
